@@ -76,7 +76,7 @@ func parseVersion1(reader *bufio.Reader) (*Header, error) {
 		return header, nil
 	}
 
-	if len(tokens) < 6 {
+	if len(tokens) != 6 {
 		state.ProxyErrInvalidHeader.Inc(1)
 		return nil, ErrCantReadProtocolVersionAndCommand
 	}
@@ -147,6 +147,12 @@ func (header *Header) writeVersion1(w io.Writer) (int64, error) {
 
 func parseV1PortNumber(portStr string) (uint16, error) {
 	var port uint16
+
+	// sign and heading zeroes are not permitted
+	if portStr == "" || portStr[0] == '+' || portStr[0] == '-' ||
+		(len(portStr) > 1 && portStr[0] == '0') {
+		return port, ErrInvalidPortNumber
+	}
 
 	pval, err := strconv.Atoi(portStr)
 	if err == nil {
